@@ -162,11 +162,11 @@ class ExperimentalValueArray(np.ndarray):
         if isinstance(value, Real):
             self[key].value = value
         else:
-            super().__setitem__(
-                key, dut.wrap_in_measurement(value, unit=self.unit, name=self.name))
-            if self.name:
+            name = self.name  # found from the first element, which may be the one replaced
+            super().__setitem__(key, dut.wrap_in_measurement(value, unit=self.unit, name=name))
+            if name:
                 index = key + len(self) if isinstance(key, int) and key < 0 else key
-                self[key].name = "{}_{}".format(self.name, index)
+                self[key].name = "{}_{}".format(name, index)
 
     def __pow__(self, power):
         if isinstance(power, ARRAY_TYPES):
